@@ -125,10 +125,15 @@ def step (st : State) (line : String) : State × String :=
     if (kv ws "skip").isSome then (st, "skipped") else
     -- a real `Server` built through the builder, per listener: connect, pause, connect, resume.
     -- Prediction from the accept-loop model: what is dispatched between pause and resume, and after.
+    -- `flood=N`: N more clients on every socket bound by the builder itself (tb / t2) during the first pause
+    let floodOk : Bool := match kv ws "flood" with
+      | none => true
+      | some v => (v.toNat?.map (fun k => decide (1 ≤ k ∧ k ≤ 400))).getD false && !v.startsWith "+"
+    let flood : Nat := ((kv ws "flood").bind (·.toNat?)).getD 0
     match (kv ws "workers").bind (·.toNat?), kv ws "ls" with
     | some w, some ls =>
       let ks := ls.splitOn ","
-      if 1 ≤ w ∧ w ≤ 4 ∧ 1 ≤ ks.length ∧ ks.length ≤ 4 ∧ ks.all (fun k => k == "tb" || k == "tl" || k == "ub" || k == "ul" || k == "t2") then
+      if floodOk = true ∧ 1 ≤ w ∧ w ≤ 4 ∧ 1 ≤ ks.length ∧ ks.length ≤ 4 ∧ ks.all (fun k => k == "tb" || k == "tl" || k == "ub" || k == "ul" || k == "t2") then
         let cfg : Cfg := { limit := 25600, nIdx := w }
         -- `t2` = one `bind` call with two addresses: two sockets (tokens)
         let kinds := ks.flatMap fun k => if k == "ub" || k == "ul" then [Kind.uds] else if k == "t2" then [Kind.tcp, Kind.tcp] else [Kind.tcp]
@@ -146,7 +151,10 @@ def step (st : State) (line : String) : State × String :=
           (b, a.dispatched.length - s.dispatched.length, b.dispatched.length - a.dispatched.length)
         let c1 := cyc s1
         let c2 := cyc c1.1
-        (st, s!"during={c1.2.1 + c2.2.1} after={c1.2.2 + c2.2.2}")
+        -- the flooded connections wait in the listen queue like the others and are all dispatched after the resume
+        -- (limit 25600 per worker: nothing saturates), so they add to `after` only
+        let nflood := flood * (ks.map fun k => if k == "t2" then 2 else if k == "tb" then 1 else 0).sum
+        (st, s!"during={c1.2.1 + c2.2.1} after={c1.2.2 + c2.2.2 + nflood}")
       else (st, "bad-op")
     | _, _ => (st, "bad-op")
   | "bld" :: _ =>
